@@ -270,32 +270,76 @@ def run(ctx: Ctx, rs: RuleSet, tier: str):
   rule = 'SHAPE.reraise-derived'
   rs.declare(rule, 'try_with_lazy_message raises the caught exception or its '
              'decoration', 1)
-  twl = ctx.func('fiddle._src.reraised_exception.try_with_lazy_message')
+  TWL = 'fiddle._src.reraised_exception.try_with_lazy_message'
   deco_q = 'fiddle._src.reraised_exception.decorate_exception'
-  for t in [n for n in walk_function(twl.node) if isinstance(n, ast.Try)]:
-    for h in t.handlers:
-      if h.name is None:
-        continue
-      # raises lexically inside this handler (including nested try)
-      for n in walk_stmts(h.body):
-        if isinstance(n, ast.Raise):
-          key = f'{twl.qualname}:raise@{"fallback" if _inside_handler(h, n) else "main"}'
-          e = n.exc
-          ok = False
-          if e is None:
-            ok = True
-            d = 'bare raise re-raises the active exception'
-          elif isinstance(e, ast.Name) and e.id == h.name:
-            ok = True
-            d = f'raises the caught exception `{h.name}` itself'
-          elif (isinstance(e, ast.Call) and p.resolve(e.func, twl) == deco_q and
-                e.args and isinstance(e.args[0], ast.Name) and
-                e.args[0].id == h.name):
-            ok = True
-            d = f'raises decorate_exception({h.name}, ...)'
-          else:
-            d = f'raises `{unparse(e)}`, not derived from the caught `{h.name}`'
-          rs.check(ok, rule, key, d, ctx.loc(twl, n))
+  if TWL in p.classes:
+    # class-based context manager: __exit__(self, exc_type, exc, tb)
+    ex = ctx.func(f'{TWL}.__exit__')
+    exc_p = ex.params[2]
+    for n in walk_function(ex.node):
+      if isinstance(n, ast.Raise):
+        e = n.exc
+        ok = e is None or (isinstance(e, ast.Name) and e.id == exc_p) or (
+            isinstance(e, ast.Call) and p.resolve(e.func, ex) == deco_q and
+            e.args and unparse(e.args[0]) == exc_p)
+        rs.check(ok, rule, f'{ex.qualname}:raise',
+                 f'raises `{unparse(e) if e is not None else "<active>"}`: '
+                 f'the caught exception `{exc_p}` or its decoration' if ok else
+                 f'raises `{unparse(e)}`, not derived from the caught '
+                 f'`{exc_p}`', ctx.loc(ex, n))
+    rets = [r for r in walk_function(ex.node) if isinstance(r, ast.Return)]
+    swallow = [r for r in rets if not (isinstance(r.value, ast.Constant) and
+                                       r.value.value in (False, None))]
+    rs.check(not swallow, rule, f'{ex.qualname}:returns',
+             '__exit__ never returns a true value (no exception is swallowed)'
+             if not swallow else
+             f'`{unparse(swallow[0])}` can make __exit__ swallow the '
+             'exception: the build would continue after a failure',
+             ctx.loc(ex, swallow[0] if swallow else ex.node))
+  else:
+    twl = ctx.func(TWL)
+    for t in [n for n in walk_function(twl.node) if isinstance(n, ast.Try)]:
+      for h in t.handlers:
+        if h.name is None:
+          continue
+        # raises lexically inside this handler (including nested try)
+        for n in walk_stmts(h.body):
+          if isinstance(n, ast.Raise):
+            key = f'{twl.qualname}:raise@{"fallback" if _inside_handler(h, n) else "main"}'
+            e = n.exc
+            ok = False
+            if e is None:
+              ok = True
+              d = 'bare raise re-raises the active exception'
+            elif isinstance(e, ast.Name) and e.id == h.name:
+              ok = True
+              d = f'raises the caught exception `{h.name}` itself'
+            elif (isinstance(e, ast.Call) and p.resolve(e.func, twl) == deco_q
+                  and e.args and isinstance(e.args[0], ast.Name) and
+                  e.args[0].id == h.name):
+              ok = True
+              d = f'raises decorate_exception({h.name}, ...)'
+            else:
+              d = f'raises `{unparse(e)}`, not derived from the caught `{h.name}`'
+            rs.check(ok, rule, key, d, ctx.loc(twl, n))
+    # PEP 479: an exception derived from StopIteration that is raised inside
+    # a generator body leaves it as RuntimeError
+    is_gen = any(isinstance(n, (ast.Yield, ast.YieldFrom))
+                 for n in walk_function(twl.node))
+    raises_derived = any(isinstance(n, ast.Raise) and n.exc is not None
+                         for n in walk_function(twl.node))
+    rs.check(not (is_gen and raises_derived), 'GEN.no-raise-in-generator',
+             f'{twl.qualname}:pep479',
+             'the re-raising helper is not a generator'
+             if not (is_gen and raises_derived) else
+             'the helper is a generator-based context manager that raises the '
+             'decorated exception inside the generator body: when a '
+             'configured callable raises StopIteration the decoration (a '
+             'StopIteration subclass) is converted to RuntimeError("generator '
+             'raised StopIteration") - class, message and path are lost',
+             ctx.loc(twl, twl.node))
+  rs.declare('GEN.no-raise-in-generator', 'exceptions of arbitrary classes '
+             'are not re-raised from inside a generator body (PEP 479)', 0)
 
   # ---- proxy shape
   _proxy_shape(ctx, rs)
